@@ -124,6 +124,8 @@ def check(acc, spec, L, mode='plain', depth=0, only=None):
     import gambatools.cfg_algorithms as ca
     from gambatools.notebook_chomsky import cfg_apply_chomsky
     inst0 = {'grammar': cfg.show(spec)}
+    if any(len(rhs) >= 5 for _, rhs in spec[3]):
+        L = max(L, 5)
     lang, _ = cfg.language(spec, L)
     acc.states += 1
     _, V, Sg, rules, S = spec
